@@ -40,6 +40,13 @@ Proof. reflexivity. Qed.
 Theorem globals_no_sync_state : pkg_sync_vars = [].
 Proof. reflexivity. Qed.
 
+(* no function of the library packages (in_toto, cmd, internal/spiffe) starts a goroutine: a call is ONE thread of the
+   interleaving model; a `go` statement inside the library would make a single call concurrent with itself, sharing
+   captured locals that no per-variable inventory sees (flagged here even when no race manifests at run time).
+   The regenerated list must equal the list read today, which is empty. *)
+Theorem globals_no_go_statements : pkg_go_statements = [].
+Proof. reflexivity. Qed.
+
 (* ---- the property ---- *)
 
 (* If no call writes a shared variable, then for every schedule under which all calls have returned,
